@@ -27,11 +27,11 @@ def abstract_programs(r):
     return out
 
 
-def enumerate_programs(mdir, max_total, max_hooks, emit, workers=NCPU, simulate=None, seed=None, depth=None):
-    cfg = ("CONSTANTS\n" + consts() + "\n MaxTotal = %d\n MaxHooks = %d\n OpSet <- Ops\nSPECIFICATION Spec\nCHECK_DEADLOCK FALSE\nINVARIANTS WellFormed%s\n"
-           % (max_total, max_hooks, " Emit" if emit else ""))
+def enumerate_programs(mdir, max_total, max_hooks, emit, workers=NCPU, simulate=None, seed=None, depth=None, opset="CoreOps"):
+    cfg = ("CONSTANTS\n" + consts() + "\n MaxTotal = %d\n MaxHooks = %d\n OpSet <- %s\nSPECIFICATION Spec\nCHECK_DEADLOCK FALSE\nINVARIANTS WellFormed%s\n"
+           % (max_total, max_hooks, opset, " Emit" if emit else ""))
     r = tlc(mdir, "EventDocMC", cfg, workers=workers, timeout=2400, heap="24g", simulate=simulate, seed=seed, depth=depth,
-            cfg_name="mc_%d_%d_%s%s.cfg" % (max_total, max_hooks, "e" if emit else "", "s" if simulate else ""))
+            cfg_name="mc_%d_%d_%s%s%s.cfg" % (max_total, max_hooks, "e" if emit else "", "s" if simulate else "", opset))
     return r
 
 
@@ -61,8 +61,9 @@ def check(pid, tier, seed, replay=None):
             # (2) scripts: every program up to a smaller bound + simulated deep programs
             ex = enumerate_programs(mdir, 3 if thorough else 2, 1, emit=True)
             absprogs = abstract_programs(ex)
-            sim = enumerate_programs(mdir, 9, 3, emit=True, workers=1, simulate=6000 if thorough else 1500, seed=seed, depth=40)
+            sim = enumerate_programs(mdir, 9, 3, emit=True, workers=1, simulate=6000 if thorough else 1500, seed=seed, depth=40, opset="Ops")
             absprogs += abstract_programs(sim)
+            absprogs += abstract_programs(enumerate_programs(mdir, 2, 0, emit=True, workers=2, opset="BigOps"))
             g = Gen(seed)
             progs = []
             for i, ap in enumerate(absprogs):
